@@ -25,6 +25,8 @@ claimed = {
              note="Goroutine/timer/address leaks, promptness and wake-on-close completeness are outside or not yet stated."),
  "C14": dict(design="8 C14", text="Proof (partial): a closed dialer returns before the transport dial; a failed attempt without redial schedules nothing; with redial the timer is armed with exactly the current delay, the next delay never exceeds the configured maximum and is unchanged when no maximum is set; the delay is reset to the minimum on Dial and on a successful attach; pipe loss re-arms with the current delay; success arms no timer; a protocol refusal still closes the pipe so that the dialer is told.",
              note="Floats as reals; real-time spacing and persistence are outside."),
+ "C20": dict(design="8 C20", text="Proof: printMsg, modelling the buffered writer as a token log: raw writes exactly the body; ascii writes each byte itself iff it is printable ASCII (0x20..0x7E) and '.' otherwise, then one newline; quoted writes per byte the escape for \\n \\r \\\\ \\\" , the byte itself if printable, a \\xHH escape otherwise (lemma: the tokens decode back to the byte and the first character determines the token length); msgpack writes bin8/bin16/bin32 by length class with a big-endian length equal to the body length (all lengths, incl. 255/256/65535/65536), then the body; the send loops send exactly sendData, count times; an explicit --count is not overridden by --send-interval. One defect found and fixed (Latin-1 bytes in ascii mode).",
+             note="bufio.Writer token model and strconv.IsPrint table (evaluated from the real library at run time) are assumptions; optopia parsing and Run's validation are outside."),
  "C03": dict(design="8 C03", text="Proof (partial): the REQ receiver matches replies on the exact 32-bit id read from the message (no normalisation), only against the id->context map, forgets the id on the first match and stores the reply in that context only; short replies are dropped; cancel forgets the outstanding id and clears request/reply; every access to REQ state happens under the socket lock.",
              note="The full cross-call monitor invariant (I1-I5 of DESIGN) is not yet proved; id freshness assumed."),
  "C04": dict(design="8 C04", text="Proof (partial): each transmission hands exactly the retained request (pointer-equal, one extra reference) to one pipe and records it as lastPipe; the retry timer is armed with exactly the retry time and only when it is positive; the timer callback uses the id captured when it was armed; pipe loss re-queues via resendMessage when retries are enabled and cancels otherwise; resendMessage acts only if the id is current, the request retained and not already queued.",
